@@ -39,6 +39,10 @@ func main() {
 	// keep the main goroutine on the main thread: the crash-point enumeration (C20) addresses system calls by
 	// their index on that thread
 	runtime.LockOSThread()
+	// the answer travels on the original standard output; whatever the library prints there (warnings) goes to
+	// standard error instead, so that it cannot garble the answer
+	answer := os.Stdout
+	os.Stdout = os.Stderr
 	var reqs []request
 	if err := json.NewDecoder(os.Stdin).Decode(&reqs); err != nil {
 		fmt.Fprintln(os.Stderr, "storechild: bad request:", err)
@@ -48,7 +52,7 @@ func main() {
 	for _, rq := range reqs {
 		out = append(out, handle(rq)...)
 	}
-	if err := json.NewEncoder(os.Stdout).Encode(out); err != nil {
+	if err := json.NewEncoder(answer).Encode(out); err != nil {
 		os.Exit(3)
 	}
 }
